@@ -401,7 +401,7 @@ def classify(m, prop):
                 # "active" is what the introspection endpoint reports. When the store agrees with the specification (no
                 # projection mismatch at this step) and the endpoint still calls the dead token active, the endpoint's own
                 # verdict is wrong: C09 ("active exactly when ... not expired, revoked, rotated away or killed by replay detection")
-                if "proj" not in fields:
+                if not m.get("proj_differs", "proj" in fields):
                     owners.add("C09")
                 if prop in owners:
                     viol = True
